@@ -68,3 +68,36 @@ Proof.
     clear. induction lv as [|a l IH]; [reflexivity|]. cbn [map combine fst]. now rewrite <- IH.
   - clear D. induction F as [|a l Ha Hl IH]; [constructor|]. cbn [map combine]. constructor; [exact Ha|exact IH].
 Qed.
+
+(* ---- flatten_keys in place (after the fix of D24 / D24b): the same mapping, bound into the emptied storage ---- *)
+Lemma adel_all_nil (es : ents) : fold_left (fun acc k => adel k acc) (map fst es) es = [].
+Proof. induction es as [|[k v] r IH]; [reflexivity|]. cbn. now rewrite String.eqb_refl. Qed.
+
+Lemma aset_fresh k v (acc : ents) : ~ In k (map fst acc) -> aset k v acc = acc ++ [(k, v)].
+Proof.
+  induction acc as [|[k' w] r IH]; intros N; [reflexivity|]. cbn in *.
+  destruct (String.eqb_spec k k') as [->|Nk]; [exfalso; apply N; now left|]. rewrite IH; [reflexivity|tauto].
+Qed.
+
+Lemma fold_aset_fresh : forall (l acc : ents), NoDup (map fst l) ->
+  (forall k, In k (map fst l) -> ~ In k (map fst acc)) ->
+  fold_left (fun a nv => aset (fst nv) (snd nv) a) l acc = acc ++ l.
+Proof.
+  induction l as [|[k v] r IH]; intros acc ND F; [now rewrite app_nil_r|].
+  inversion ND as [|? ? NI ND']; subst. cbn [fold_left fst snd].
+  rewrite aset_fresh by (apply F; now left). rewrite IH; [now rewrite <- app_assoc|exact ND'|].
+  intros k' I. rewrite map_app, in_app_iff. cbn. intros [I2|[E|[]]]; [exact (F k' (or_intror I) I2)|subst; contradiction].
+Qed.
+
+Theorem flatten_in_eq sep es :
+  flatten_in sep es = match flatten_out sep es with Ok out => (out, None) | Raise e => (es, Some e) end.
+Proof.
+  unfold flatten_in, flatten_out.
+  set (lv := leaves true [] (Node es)). clearbody lv.
+  destruct (has_dup (map (fun pv : list string * tree => join sep (fst pv)) lv)) eqn:D; [reflexivity|].
+  rewrite adel_all_nil. f_equal. rewrite fold_aset_fresh; [reflexivity| |intros k _ []].
+  apply has_dup_false_NoDup in D.
+  replace (map fst (combine (map (fun pv : list string * tree => join sep (fst pv)) lv) (map snd lv)))
+    with (map (fun pv : list string * tree => join sep (fst pv)) lv); [exact D|].
+  clear. induction lv as [|a l IH]; [reflexivity|]. cbn [map combine fst]. now rewrite <- IH.
+Qed.
